@@ -97,6 +97,15 @@ def random_run(rng, rid, nh=None, ncalls=None, hash_=None, crash=False, weights=
            "sched": [], "tail": rng.choice(["random", "pct", "pct"]), "seed": rng.randint(1, 1 << 30), "pctd": rng.choice([1, 2, 3])}
     if crash:
         run["crash"] = [{"h": rng.randint(1, nh), "before": rng.randint(2, 30)}]
+    x = rng.random()
+    if x < 0.2:
+        # no marker refs: deletions can empty whole tables, compactions can have an empty result (no transaction accounting in these runs)
+        run["nomarks"] = True
+        for c in init + [c for p in progs.values() for c in p]:
+            if c.get("parts"):
+                c["parts"] = [[[nm, "" if rng.random() < 0.6 else v] for nm, v in part] for part in c["parts"]]
+    elif x < 0.35:
+        run["skipnamecheck"] = True
     return run
 
 
